@@ -189,7 +189,7 @@ pub fn cmd_probe(a: &Args) -> i32 {
                 viol.push("spawn_with_mailbox_capacity(_, 0) did not reject capacity 0".into());
             }
             // explicit capacities are hard bounds too
-            for cap in [1usize, 2, 7] {
+            for cap in [1usize, 2, 7, 33, 50] {
                 let gate = Arc::new(tokio::sync::Semaphore::new(0));
                 let got = rt.block_on(async {
                     let (a, jh) = rsactor::spawn_with_mailbox_capacity::<G>(gate.clone(), cap);
